@@ -17,6 +17,7 @@ func rulesC15(c *Ctx) {
 		"R15.1 diff treats all five tables in both directions and files every operation in the right bucket (top-level kinds → TopLevel, groups → NHG, next-hops → NH; new → Add, existing-but-different → Replace, target-only → Delete), with the builder of the table's own kind",
 		"R15.2 every network instance of the target is enumerated (what only the target has can only be deleted if its instances are walked)",
 		"R15.3 ids: exactly one id.Add(1) before each builder call; each builder stamps Id: id.Load(), the given network instance, the given method and the payload of rib.Concrete<Kind>Proto of its entry",
+		"R15.6 Reconcile compares (intended, target) in that order and merging operation sets keeps every bucket",
 		"R15.5 (shared with C03) a replace leaves the target's reference counts equal to what is installed: handleReferences / handleNHGReferences release exactly the replaced references — otherwise the deletes of a later reconciliation are refused and the target never converges",
 		"R15.4 equal ⇒ silent: every operation is emitted under a difference test (missing on the other side, or not DeepEqual)")
 	c.NotDec = append(c.NotDec, "that applying the operations in the documented order succeeds and converges (an execution)", "DeepEqual semantics on ygot structs")
@@ -27,6 +28,8 @@ func rulesC15(c *Ctx) {
 	// deletion protection matches what is installed after a replace (shared with C03)
 	ruleHandleReferencesTable(c)
 	ruleNHGReferences(c)
+	ruleDeleteRefs(c)
+	ruleReconcileWiring(c)
 }
 
 const recPkg = modPath + "/rib/reconciler"
@@ -154,7 +157,7 @@ func ruleDiffLoops(c *Ctx) {
 						return true
 					}
 					if f.Name() == "Add" && len(x.Args) == 1 {
-						if se, ok := ast.Unparen(x.Fun).(*ast.SelectorExpr); ok && objOfIdent(info, se.X) == idParam {
+						if se, ok := ast.Unparen(x.Fun).(*ast.SelectorExpr); ok && objOfIdent(info, resolveLocal(info, fi.Decl, se.X)) == idParam {
 							if v, isC := constInt(info, x.Args[0]); isC && v == 1 {
 								out = append(out, Event{Kind: "id++", Node: x})
 							} else {
@@ -182,6 +185,10 @@ func ruleDiffLoops(c *Ctx) {
 								_, p := selectorPath(info, x.Lhs[0])
 								if len(p) == 2 {
 									out = append(out, Event{Kind: "file:" + p[0] + "." + p[1], Node: x})
+								}
+								if len(p) == 1 {
+									// the operation set is held in a local (opSet := ops.Add / ops.Replace): resolved per path
+									out = append(out, Event{Kind: "file-late", Node: x, Data: p[0]})
 								}
 							}
 						}
@@ -232,10 +239,21 @@ func ruleDiffLoops(c *Ctx) {
 				if e.Kind == "build" {
 					call := e.Node.(*ast.CallExpr)
 					method := p.TermAtEnd(pe, call.Args[0])
-					okArgs := objOfIdent(info, call.Args[2]) == idParam && objOfIdent(info, call.Args[3]) == valO
+					okArgs := objOfIdent(info, resolveLocal(info, fi.Decl, call.Args[2])) == idParam && objOfIdent(info, call.Args[3]) == valO
 					niSide := diffSide(info, fi, objOfIdent(info, call.Args[1]), 0)
 					_ = niSide
 					k2 = fmt.Sprintf("build:%s(%s,argsOK=%v)", e.Data.(string), method, okArgs)
+				}
+				if e.Kind == "file-late" {
+					as := e.Node.(*ast.AssignStmt)
+					set := "?"
+					if se, ok := ast.Unparen(as.Lhs[0]).(*ast.SelectorExpr); ok {
+						t := p.TermAtEnd(pe, se.X)
+						if i := strings.LastIndex(t, "."); i >= 0 {
+							set = t[i+1:]
+						}
+					}
+					k2 = "file:" + set + "." + e.Data.(string)
 				}
 				evs = append(evs, k2)
 			}
@@ -401,6 +419,10 @@ func ruleDiffInstances(c *Ctx) {
 					if tableOfExpr(info, x.X) != "" {
 						return false // the table loops have their own rule
 					}
+				case *ast.BlockStmt:
+					if inlineFrames[x] != nil {
+						return false // a helper's own returns end the helper, not the instance loop
+					}
 				case *ast.FuncLit:
 					return false
 				case *ast.BranchStmt:
@@ -504,4 +526,88 @@ func ruleOpBuilders(c *Ctx) {
 		c.check(bad == "", rule, fi.Name, "stamps id, instance, method and the converted entry of its own kind", c.P.pos(fi.Decl.Pos()), k.OpOneof, "builder for "+k.Table+" deviates: "+bad)
 	}
 	c.floor(rule, "operation builders", n, 5)
+}
+
+// R15.6 Reconcile hands diff (intended, target) in that order, taken from its own
+// two sides; merging operation sets keeps every bucket (a merged set that drops
+// or re-files a bucket loses operations or breaks their dependency order).
+func ruleReconcileWiring(c *Ctx) {
+	const rule = "RECONCILE-WIRING"
+	fi := c.need("rib/reconciler", "R", "Reconcile")
+	df := c.need("rib/reconciler", "", "diff")
+	if fi != nil && df != nil {
+		info := fi.Pkg.TypesInfo
+		good, why := false, "Reconcile does not call diff"
+		for _, call := range callsIn(fi.Decl.Body) {
+			if calleeObj(info, call) != df.Obj || len(call.Args) < 2 {
+				continue
+			}
+			side := func(e ast.Expr) string {
+				v, ok := objOfIdent(info, e).(*types.Var)
+				if !ok {
+					return "?"
+				}
+				if gc, i := soleTupleDef(info, fi.Decl, v); gc != nil && i == 0 {
+					if se, ok := ast.Unparen(gc.Fun).(*ast.SelectorExpr); ok && se.Sel.Name == "Get" {
+						_, p := selectorPath(info, se.X)
+						return strings.Join(p, ".")
+					}
+				}
+				return "?"
+			}
+			a, b := side(call.Args[0]), side(call.Args[1])
+			good = a == "intended" && b == "target"
+			why = fmt.Sprintf("diff is handed (%s, %s), want (contents of intended, contents of target): the operations would move the target away from the intended state", a, b)
+		}
+		c.Sites++
+		c.check(good, rule, fi.Name, "diff(intended contents, target contents)", c.P.pos(fi.Decl.Pos()), "first argument from r.intended.Get, second from r.target.Get", why)
+	}
+	for _, t := range []struct {
+		recv   string
+		fields []string
+	}{{"Ops", []string{"NH", "NHG", "TopLevel"}}, {"ReconcileOps", []string{"Add", "Replace", "Delete"}}} {
+		mf := c.need("rib/reconciler", t.recv, "Merge")
+		if mf == nil {
+			continue
+		}
+		info := mf.Pkg.TypesInfo
+		recv, in := recvObj(info, mf.Decl), paramObjs(info, mf.Decl)[0]
+		merged := map[string]string{}
+		ast.Inspect(mf.Decl.Body, func(n ast.Node) bool {
+			switch x := n.(type) {
+			case *ast.AssignStmt:
+				// o.X = append(o.X, in.Y...)
+				if len(x.Lhs) == 1 && len(x.Rhs) == 1 {
+					if call, ok := ast.Unparen(x.Rhs[0]).(*ast.CallExpr); ok && len(call.Args) == 2 {
+						if id, ok := call.Fun.(*ast.Ident); ok && id.Name == "append" {
+							lo, lp := selectorPath(info, x.Lhs[0])
+							ao, ap := selectorPath(info, call.Args[0])
+							so, sp := selectorPath(info, call.Args[1])
+							if lo == recv && ao == recv && so == in && len(lp) == 1 && len(ap) == 1 && len(sp) == 1 && lp[0] == ap[0] {
+								merged[lp[0]] = sp[0]
+							}
+						}
+					}
+				}
+			case *ast.CallExpr:
+				// r.X.Merge(in.Y)
+				if se, ok := ast.Unparen(x.Fun).(*ast.SelectorExpr); ok && se.Sel.Name == "Merge" && len(x.Args) == 1 {
+					lo, lp := selectorPath(info, se.X)
+					so, sp := selectorPath(info, x.Args[0])
+					if lo == recv && so == in && len(lp) == 1 && len(sp) == 1 {
+						merged[lp[0]] = sp[0]
+					}
+				}
+			}
+			return true
+		})
+		var bad []string
+		for _, f := range t.fields {
+			if merged[f] != f {
+				bad = append(bad, fmt.Sprintf("%s←%q", f, merged[f]))
+			}
+		}
+		c.Sites++
+		c.check(len(bad) == 0, rule, mf.Name, "every bucket is merged from the same bucket", c.P.pos(mf.Decl.Pos()), strings.Join(t.fields, ", "), "merging operation sets drops or re-files a bucket: "+strings.Join(bad, ", "))
+	}
 }
